@@ -1,4 +1,4 @@
-import QibGen.GatesReal
+import QibProofs.Lemmas.GateBridge
 import QibProofs.Lemmas.GateAlgebra
 import QibProofs.Lemmas.PauliFlags
 import Mathlib.Tactic.NormNum
@@ -11,7 +11,7 @@ is true, so flipping a flag to an unsound `True` in the source breaks the proof 
 Pauli strings, weighted strings and Pauli operators are covered at the end of this file (executable model
 `QibModel/Pauli.lean`, phase table regenerated from the source); field-operator terms and Hamiltonians in C10 / C15.
 -/
-open Matrix NormedSpace Complex QibGen Qib.GateAlgebra
+open Matrix NormedSpace Complex QibGen QibRef Qib.GateAlgebra
 
 namespace Qib.C16
 
@@ -150,5 +150,51 @@ theorem C16_PauliOperator_sound (n : ℕ) (op : PauliOp GQ) (h : PauliOp.isHermi
 the sum is Hermitian (0); the code merges equal strings on insertion, so this needs a constructor list with duplicates. The property
 claims completeness only for strings and weighted strings. -/
 example : Qib.Pauli.PauliOp.isHermitian [(⟨[false], [true], 0⟩, ⟨1, 0⟩)] = true := by decide +kernel
+
+/-! ### The same statements about the forms regenerated from the CURRENT source
+
+`QibSrc.K.mat` / `QibSrc.K.inv` are regenerated from `src/qib/operator/gates.py` on every run; `QibBridge` proves on every run that they are
+equal to the reference forms `QibRef.K.mat` / `QibRef.K.inv` used above (by a tactic that is independent of how the source spells the
+closed form), so every theorem above is a theorem about what the code says now. -/
+
+theorem C16_source_agrees : QibBridge.SrcAgrees := QibBridge.srcAgrees
+theorem C16_IdentityGate_src : IdentityGate.hermitianFlag = true → (QibSrc.IdentityGate.mat)ᴴ = QibSrc.IdentityGate.mat := by
+  rw [QibBridge.IdentityGate_mat]; exact C16_IdentityGate
+theorem C16_PauliXGate_src : PauliXGate.hermitianFlag = true → (QibSrc.PauliXGate.mat)ᴴ = QibSrc.PauliXGate.mat := by
+  rw [QibBridge.PauliXGate_mat]; exact C16_PauliXGate
+theorem C16_PauliYGate_src : PauliYGate.hermitianFlag = true → (QibSrc.PauliYGate.mat)ᴴ = QibSrc.PauliYGate.mat := by
+  rw [QibBridge.PauliYGate_mat]; exact C16_PauliYGate
+theorem C16_PauliZGate_src : PauliZGate.hermitianFlag = true → (QibSrc.PauliZGate.mat)ᴴ = QibSrc.PauliZGate.mat := by
+  rw [QibBridge.PauliZGate_mat]; exact C16_PauliZGate
+theorem C16_HadamardGate_src : HadamardGate.hermitianFlag = true → (QibSrc.HadamardGate.mat)ᴴ = QibSrc.HadamardGate.mat := by
+  rw [QibBridge.HadamardGate_mat]; exact C16_HadamardGate
+theorem C16_SxGate_src : SxGate.hermitianFlag = true → (QibSrc.SxGate.mat)ᴴ = QibSrc.SxGate.mat := by
+  rw [QibBridge.SxGate_mat]; exact C16_SxGate
+theorem C16_RxGate_src (θ : ℝ): RxGate.hermitianFlag = true → (QibSrc.RxGate.mat θ)ᴴ = QibSrc.RxGate.mat θ := by
+  rw [QibBridge.RxGate_mat]; exact C16_RxGate θ
+theorem C16_RyGate_src (θ : ℝ): RyGate.hermitianFlag = true → (QibSrc.RyGate.mat θ)ᴴ = QibSrc.RyGate.mat θ := by
+  rw [QibBridge.RyGate_mat]; exact C16_RyGate θ
+theorem C16_RzGate_src (θ : ℝ): RzGate.hermitianFlag = true → (QibSrc.RzGate.mat θ)ᴴ = QibSrc.RzGate.mat θ := by
+  rw [QibBridge.RzGate_mat]; exact C16_RzGate θ
+theorem C16_RotationGate_src (v : Fin 3 → ℝ): RotationGate.hermitianFlag = true → (QibSrc.RotationGate.mat v)ᴴ = QibSrc.RotationGate.mat v := by
+  rw [QibBridge.RotationGate_mat]; exact C16_RotationGate v
+theorem C16_SGate_src : SGate.hermitianFlag = true → (QibSrc.SGate.mat)ᴴ = QibSrc.SGate.mat := by
+  rw [QibBridge.SGate_mat]; exact C16_SGate
+theorem C16_SAdjGate_src : SAdjGate.hermitianFlag = true → (QibSrc.SAdjGate.mat)ᴴ = QibSrc.SAdjGate.mat := by
+  rw [QibBridge.SAdjGate_mat]; exact C16_SAdjGate
+theorem C16_TGate_src : TGate.hermitianFlag = true → (QibSrc.TGate.mat)ᴴ = QibSrc.TGate.mat := by
+  rw [QibBridge.TGate_mat]; exact C16_TGate
+theorem C16_TAdjGate_src : TAdjGate.hermitianFlag = true → (QibSrc.TAdjGate.mat)ᴴ = QibSrc.TAdjGate.mat := by
+  rw [QibBridge.TAdjGate_mat]; exact C16_TAdjGate
+theorem C16_PhaseFactorGate_src (φ : ℝ) (n : ℕ): PhaseFactorGate.hermitianFlag = true → (QibSrc.PhaseFactorGate.mat φ n)ᴴ = QibSrc.PhaseFactorGate.mat φ n := by
+  rw [QibBridge.PhaseFactorGate_mat]; exact C16_PhaseFactorGate φ n
+theorem C16_RxxGate_src (θ : ℝ): RxxGate.hermitianFlag = true → (QibSrc.RxxGate.mat θ)ᴴ = QibSrc.RxxGate.mat θ := by
+  rw [QibBridge.RxxGate_mat]; exact C16_RxxGate θ
+theorem C16_RyyGate_src (θ : ℝ): RyyGate.hermitianFlag = true → (QibSrc.RyyGate.mat θ)ᴴ = QibSrc.RyyGate.mat θ := by
+  rw [QibBridge.RyyGate_mat]; exact C16_RyyGate θ
+theorem C16_RzzGate_src (θ : ℝ): RzzGate.hermitianFlag = true → (QibSrc.RzzGate.mat θ)ᴴ = QibSrc.RzzGate.mat θ := by
+  rw [QibBridge.RzzGate_mat]; exact C16_RzzGate θ
+theorem C16_ISwapGate_src : ISwapGate.hermitianFlag = true → (QibSrc.ISwapGate.mat)ᴴ = QibSrc.ISwapGate.mat := by
+  rw [QibBridge.ISwapGate_mat]; exact C16_ISwapGate
 
 end Qib.C16
